@@ -343,6 +343,16 @@ def pmap(fn, items, nproc=None):
         return list(ex.map(fn, items))
 
 
+def pmap_proc(fn, items, nproc=None):
+    """Parallel map with processes (for CPU-bound projections); fn must be a module-level function."""
+    import multiprocessing as mp
+    items = list(items)
+    if not items:
+        return []
+    with mp.get_context("fork").Pool(min(nproc or NCPU, len(items))) as pool:
+        return pool.map(fn, items, chunksize=max(1, len(items) // ((nproc or NCPU) * 8)))
+
+
 def write_ndjson(path, events):
     with open(path, "w") as f:
         for e in events:
